@@ -5,6 +5,7 @@
 
 #![allow(clippy::too_many_arguments, clippy::needless_range_loop)]
 
+mod alloc;
 mod codec;
 mod gen;
 mod gf;
@@ -25,12 +26,21 @@ mod mon_c04;
 mod mon_c05;
 mod mon_c06;
 mod mon_c07;
+mod mon_c08;
+mod mon_c09;
 mod mon_c10;
 mod mon_c11;
 mod mon_c12;
 mod mon_c13;
+mod mon_c14;
+mod mon_c15;
+mod mon_c16;
+mod mon_c17;
 
 use std::sync::Mutex;
+
+#[global_allocator]
+static GLOBAL: alloc::Counting = alloc::Counting;
 use std::time::Instant;
 
 use util::{Agg, RunCfg};
@@ -89,6 +99,15 @@ fn main() {
         only_stage: stage,
         thorough: tier == "thorough",
     };
+    if prop == "C16CHILD" || prop == "C16REF" {
+        let seed = cfg.only_case.expect("--case");
+        if prop == "C16CHILD" {
+            mon_c16::child(seed);
+        } else {
+            mon_c16::reference(seed);
+        }
+        return;
+    }
     let agg = Mutex::new(Agg::default());
     let t0 = Instant::now();
     match prop.as_str() {
@@ -99,10 +118,16 @@ fn main() {
         "C05" => mon_c05::run(&cfg, &agg),
         "C06" => mon_c06::run(&cfg, &agg),
         "C07" => mon_c07::run(&cfg, &agg),
+        "C08" => mon_c08::run(&cfg, &agg),
+        "C09" => mon_c09::run(&cfg, &agg),
         "C10" => mon_c10::run(&cfg, &agg),
         "C11" => mon_c11::run(&cfg, &agg),
         "C12" => mon_c12::run(&cfg, &agg),
         "C13" => mon_c13::run(&cfg, &agg),
+        "C14" => mon_c14::run(&cfg, &agg),
+        "C15" => mon_c15::run(&cfg, &agg),
+        "C16" => mon_c16::run(&cfg, &agg),
+        "C17" => mon_c17::run(&cfg, &agg),
         other => {
             eprintln!("unknown property {other}");
             std::process::exit(2);
